@@ -1,5 +1,6 @@
 import Lemmas.PyVal
 import Jose.Claims
+import Generated.Tables
 /-!
 # C10 — claims validation accepts exactly the claim sets that satisfy the request
 
@@ -229,5 +230,22 @@ example : validateClaims sampleReg [("iss", .str "https://issuer"), ("aud", .arr
 example : validateClaims sampleReg [("iss", .str "https://issuer"), ("exp", .int 989)] = .error .expiredToken := by decide
 example : validateClaims sampleReg [("aud", .str "a")] = .error .missingClaim := by decide
 example : validateClaims sampleReg [("iss", .str "https://issuer"), ("nbf", .bool true)] = .error .invalidClaim := by decide
+
+end Jose.C10
+
+namespace Jose.C10
+
+/-- The claim names for which `validate` finds a dedicated validator by name (`validate_<claim>` on the live class,
+regenerated from /repo): exactly the four built-in rules of the model. A new `validate_*` method - a claim name that would
+silently stop being treated as a private claim - changes this table. -/
+theorem c10_validators : Generated.claimValidators = ["aud", "exp", "iat", "nbf"] := by decide
+
+/-- Every other claim name - whatever it is called - is a private claim: only `check_value` applies. -/
+theorem c10_private_claim (r : ClaimsReg) (key : String) (value : JVal) (h : key ∉ Generated.claimValidators) :
+    validateClaim r key value = checkValue r key value := by
+  rw [c10_validators] at h
+  simp only [List.mem_cons, List.mem_nil_iff, or_false, not_or] at h
+  obtain ⟨h1, h2, h3, h4⟩ := h
+  simp [validateClaim, h1, h2, h3, h4]
 
 end Jose.C10
